@@ -3,7 +3,13 @@
 //!   fkatomcheck replay <path>
 
 mod c11;
+mod model;
+mod sx;
 mod c12;
+
+// Every SelectExecutor allocates a zeroed 10 MiB arena per query; pool those blocks (see vcore::bigalloc)
+#[global_allocator]
+static GLOBAL: vcore::bigalloc::ArenaCache = vcore::bigalloc::ArenaCache;
 
 fn usage() -> ! {
     eprintln!("usage: fkatomcheck check <C11|C12> <quick|thorough> | fkatomcheck replay <path>");
@@ -39,6 +45,51 @@ fn replay(path: &str) -> i32 {
     }
 }
 
+fn bench() {
+    use std::time::Instant;
+    let t = Instant::now();
+    for _ in 0..200 {
+        let _d = vibesql_storage::Database::new();
+    }
+    println!("Database::new x200: {:?}", t.elapsed());
+    let cfgs = c12::configs(false);
+    let cfg = &cfgs[0];
+    let mut db = sx::fresh(&cfg.prelude).unwrap();
+    sx::apply(&mut db, "INSERT INTO p VALUES (1, 10), (2, 20), (3, 30)");
+    sx::apply(&mut db, "INSERT INTO c VALUES (1, 1), (2, 2)");
+    let t = Instant::now();
+    for _ in 0..200 {
+        let _d = db.clone();
+    }
+    println!("clone x200: {:?}", t.elapsed());
+    let t = Instant::now();
+    for _ in 0..200 {
+        let _ = vcore::fp::canon(&db);
+    }
+    println!("canon x200: {:?}", t.elapsed());
+    let t = Instant::now();
+    for _ in 0..200 {
+        let mut d = db.clone();
+        sx::apply(&mut d, "DELETE FROM p WHERE id = 2");
+    }
+    println!("clone+delete x200: {:?}", t.elapsed());
+    let t = Instant::now();
+    for _ in 0..200 {
+        let _ = sx::read_schema_tables(&db, &cfg.schema);
+    }
+    println!("read_tables x200: {:?}", t.elapsed());
+    let t = Instant::now();
+    for _ in 0..50 {
+        let _ = vcore::obs::obs_state(&db);
+    }
+    println!("obs_state x50: {:?}", t.elapsed());
+    let t = Instant::now();
+    for _ in 0..200 {
+        let _ = sx::fresh(&cfg.prelude);
+    }
+    println!("fresh x200: {:?}", t.elapsed());
+}
+
 fn main() {
     let args: Vec<String> = std::env::args().collect();
     if args.len() < 2 {
@@ -58,6 +109,15 @@ fn main() {
             }
         },
         "replay" if args.len() >= 3 => replay(&args[2]),
+        "worker" if args.len() >= 5 => match args[2].as_str() {
+            "C11" => c11::worker(&args[3], &args[4]),
+            "C12" => c12::worker(&args[3], &args[4]),
+            _ => 2,
+        },
+        "bench" => {
+            bench();
+            0
+        }
         _ => usage(),
     };
     std::process::exit(code);
